@@ -72,7 +72,8 @@ def run(ids, tier):
     sd = os.path.join(V, "seeded")
     results_path = os.path.join(sd, "RESULTS.json")
     results = json.load(open(results_path)) if os.path.exists(results_path) else {}
-    all_ids = sorted(d for d in os.listdir(sd) if os.path.isdir(os.path.join(sd, d)))
+    all_ids = sorted(d for d in os.listdir(sd)
+                     if os.path.isfile(os.path.join(sd, d, "meta.json")))   # skips seeded/retired/
     for sid in (ids or all_ids):
         d = os.path.join(sd, sid)
         meta = json.load(open(os.path.join(d, "meta.json")))
